@@ -110,3 +110,21 @@ func verifH_C08_paramkey() {
 	verifAssert((err == nil) == want, "C08 media type keys with parameters: the declared entry is chosen by exact string, then bare type, then type/*, and its schema decides; an uncovered content type is rejected")
 	verifReach("end")
 }
+
+//verif:harness id=C08 tier=quick,thorough witness=end bounds="a response header definition named Content-Type in four spellings (Content-Type, content-type, CONTENT-TYPE, Content-type), required, with a schema no content type satisfies: it is ignored (the OpenAPI text says so and header names are case-insensitive): a response with a declared content type and a valid body passes, one with an undeclared content type is still rejected"
+func verifH_C08_content_type_header_definition() {
+	d := "d"
+	name := []string{"Content-Type", "content-type", "CONTENT-TYPE", "Content-type"}[verifChoose("name", 4)]
+	never := &openapi3.SchemaRef{Value: &openapi3.Schema{Type: &openapi3.Types{"string"}, Enum: []any{"nope"}}}
+	maxLen := uint64(3)
+	resp := &openapi3.Response{Description: &d,
+		Headers: openapi3.Headers{name: &openapi3.HeaderRef{Value: &openapi3.Header{Parameter: openapi3.Parameter{Required: true, Schema: never}}}},
+		Content: openapi3.Content{"text/plain": &openapi3.MediaType{Schema: &openapi3.SchemaRef{Value: &openapi3.Schema{Type: &openapi3.Types{"string"}, MaxLength: &maxLen}}}}}
+	resps := openapi3.NewResponsesWithCapacity(1)
+	resps.Set("200", &openapi3.ResponseRef{Value: resp})
+	op := &openapi3.Operation{Responses: resps}
+	ct := []string{"text/plain", "image/png"}[verifChoose("ct", 2)]
+	err := ValidateResponse(context.Background(), verifRespInput(op, "GET", 200, http.Header{"Content-Type": []string{ct}}, []byte("ok"), &Options{}))
+	verifAssert((err == nil) == (ct == "text/plain"), "C08 Content-Type definition: a header definition named Content-Type is ignored, whatever its spelling; the content type is judged by the declared content")
+	verifReach("end")
+}
